@@ -307,7 +307,10 @@ class Result:
         self.violations.append((what, replay, no_input))
 
     def finish(self, level="proof"):
-        os.makedirs(os.path.join(ROOT, "evidence"), exist_ok=True)
+        # runs against a patched scratch tree (tools/try_patch.sh) must not overwrite the evidence of /repo
+        ev_dir = os.environ.get("VERIF_EVIDENCE_DIR") or (
+            os.path.join(BUILD, "evidence-scratch") if os.environ.get("VERIF_REPO") else os.path.join(ROOT, "evidence"))
+        os.makedirs(ev_dir, exist_ok=True)
         os.makedirs(os.path.join(ROOT, "replays"), exist_ok=True)
         coq = self.coq or {}
         thms = coq.get("theorems", [])
@@ -346,7 +349,7 @@ class Result:
             "violations": len(self.violations),
             "known_findings_hit": self.known_hits,
         }
-        with open(os.path.join(ROOT, "evidence", "%s.json" % self.id), "w") as f:
+        with open(os.path.join(ev_dir, "%s.json" % self.id), "w") as f:
             json.dump(ev, f, indent=1, sort_keys=True)
         for k in self.known_hits:
             print("KNOWN-FINDING: property=%s %s" % (self.id, k))
